@@ -161,6 +161,203 @@ def rule_parser(ck):
     ck.ob("table.dqe_prefix", "postfix/delimiters-present", {".", "[", "]", "(", ")", "*", "&", "~"} <= chars_used, f"{sorted(chars_used)}", "src/ui/command/parser/expression.rs")
 
 
+_ARITH = {"checked_sub": "sub", "saturating_sub": "sub", "wrapping_sub": "sub", "Sub": "sub", "SubWithOverflow": "sub", "SubUnchecked": "sub",
+          "checked_add": "add", "saturating_add": "add", "wrapping_add": "add", "Add": "add", "AddWithOverflow": "add", "AddUnchecked": "add",
+          "checked_mul": "mul", "saturating_mul": "mul", "wrapping_mul": "mul", "Mul": "mul", "MulWithOverflow": "mul", "MulUnchecked": "mul"}
+
+
+def _alg(g, e):
+    """normalise an expression tree to an algebraic term over named leaves: ('sub'|'add'|'mul', a, b) with add/mul
+    operands sorted; casts, `?`, unwrap_or_default, references and the `.0` of checked arithmetic are transparent;
+    closure captures are named by the captured variable; min(x, <len>) is ('clamp', x)."""
+    ups = g.raw.get("upvars", [])
+    k = e[0]
+    if k == "const":
+        return e[1]
+    if k == "arg":
+        names = g.raw.get("arg_names") or []
+        return f"arg{e[1]}"
+    if k in ("cast",):
+        return _alg(g, e[2])
+    if k in ("try", "ref"):
+        return _alg(g, e[1])
+    if k == "field":
+        base, proj = e[1], list(e[2])
+        while base[0] == "field" and all(x in ("*", "*raw") for x in base[2]):
+            base = base[1]
+        if base == ("arg", 1) and g.raw.get("kind") == "closure":
+            while proj and proj[0] in ("*", "*raw"):
+                proj = proj[1:]
+        if base[0] == "field" and base[1] == ("arg", 1) and g.raw.get("kind") == "closure" and not proj:
+            base, proj = ("arg", 1), [x for x in base[2] if x not in ("*", "*raw")]
+        if base == ("arg", 1) and g.raw.get("kind") == "closure" and proj and re.fullmatch(r"\.\d+", proj[0]):
+            n = int(proj[0][1:])
+            return "up:" + (ups[n].lstrip("*") if n < len(ups) else str(n))
+        b = _alg(g, base)
+        proj = [p for p in proj if p not in ("*", "*raw", ".0", "as:Some", "as:Continue")]
+        if not proj:
+            return b
+        return ("field", b, tuple(proj))
+    if k == "bin":
+        op = _ARITH.get(e[1])
+        a, b = _alg(g, e[2]), _alg(g, e[3])
+        if op in ("add", "mul"):
+            a, b = sorted((a, b), key=repr)
+        return (op or e[1], a, b)
+    if k == "call":
+        nm = e[1].split("::")[-1]
+        args = [_alg(g, a) for a in e[2]]
+        if nm in _ARITH and len(args) == 2:
+            op = _ARITH[nm]
+            if op in ("add", "mul"):
+                args = sorted(args, key=repr)
+            return (op, args[0], args[1])
+        if nm in ("unwrap_or_default", "unwrap", "into", "from", "clone") and len(args) == 1:
+            return args[0]
+        if nm == "min" and len(args) == 2:
+            lens = [a for a in args if isinstance(a, tuple) and a[0] == "call" and a[1] == "len"]
+            rest = [a for a in args if a not in lens]
+            if len(lens) == 1 and len(rest) == 1:
+                return ("clamp", rest[0])
+        return ("call", nm) + tuple(args)
+    if k == "multi":
+        return ("multi",) + tuple(sorted({repr(_alg(g, x)) for x in e[1]}))
+    if k == "agg":
+        return ("agg", e[3] or e[2]) + tuple(_alg(g, x) for x in e[4])
+    return ("?",)
+
+
+def _strip_clamp(t):
+    if isinstance(t, tuple):
+        if t[0] == "clamp":
+            return _strip_clamp(t[1])
+        return tuple(_strip_clamp(x) for x in t)
+    return t
+
+
+def _leaves(t, out=None):
+    out = set() if out is None else out
+    if isinstance(t, tuple):
+        for x in t[1:]:
+            _leaves(x, out)
+    else:
+        out.add(t)
+    return out
+
+
+ARR = "debugger::variable::value::ArrayValue"
+PTR = "debugger::variable::value::PointerValue"
+
+
+def rule_slice(ck):
+    prog = ck.prog
+    ck.rule("table.slice_arith", "a[l..r] is elements l..r-1 of the *current* sequence: ArrayValue::slice removes by position (the first l items, then everything from position r-l), never by the stored index label; PointerValue::slice reads size*(r-l) bytes at ptr+size*l and element i is at base+i*size; Value::index on an array selects position i for literal i, guarded by i < len")
+    # --- ArrayValue::slice
+    f = ck.anchor(ARR + "::slice")
+    fs = [f] + [prog.fns[p] for p in prog.closures_of(f.path)]
+    reads_label = []
+    for g in fs:
+        ck.saw(g)
+        for b in g.blocks:
+            for st in b["stmts"]:
+                if st["s"] == "assign" and ".index" in json_places(st["rv"]):
+                    reads_label.append(g.path)
+    ck.ob("table.slice_arith", "ArrayValue::slice/selects-by-position-not-label", not reads_label, f"reads ArrayItem.index in {sorted(set(short(x) for x in reads_label))}", f.loc(), what="slice selects items by their stored index label; a slice of a slice (labels keep the original numbering) selects the wrong elements")
+    removals = []
+    for g in fs:
+        for c in g.calls():
+            m = re.search(r"Vec::<T, A>::(drain|truncate|split_off|retain|retain_mut|remove|swap_remove)$", c.name)
+            if m:
+                removals.append((g, c, m.group(1)))
+    drains = [(g, c) for g, c, k in removals if k == "drain"]
+    others = sorted({k for g, c, k in removals if k != "drain"})
+    ck.ob("table.slice_arith", "ArrayValue::slice/removal-by-range-only", not others and len(drains) == 2, f"{len(drains)} drain calls, other removals {others}", f.loc())
+    front = back = None
+    for g, c in drains:
+        t = _alg(g, expr_of(g, c.args[1], depth=30))
+        if t[0] == "agg" and t[1] == "RangeTo":
+            front = (g, c, t[2])
+        if t[0] == "agg" and t[1] == "RangeFrom":
+            back = (g, c, t[2])
+    ok = front is not None and _strip_clamp(front[2]) == "arg2"
+    ck.ob("table.slice_arith", "ArrayValue::slice/drops-first-l", ok, f"front removal ..{front[2] if front else None}", f.loc(front[1].bb) if front else f.loc(), what="slice does not drop exactly the first `l` items")
+    ok = back is not None and front is not None and back[2] == ("sub", ("field", "arg3", ()), front[2]) or (back is not None and front is not None and back[2] == ("sub", "arg3", front[2]))
+    ck.ob("table.slice_arith", "ArrayValue::slice/keeps-r-minus-l", ok, f"back removal {back[2] if back else None}..", f.loc(back[1].bb) if back else f.loc(), what="slice does not keep exactly r-l items after dropping the first l")
+    if front and back:
+        # the two removals happen in this order (the second bound is relative to the shortened list)
+        ck.ob("table.slice_arith", "ArrayValue::slice/front-removed-before-back", back[1].bb in f.reach_from([front[1].bb]) and front[1].bb not in f.reach_from([back[1].bb]), "", f.loc(back[1].bb))
+    # --- PointerValue::slice
+    pf = ck.anchor(PTR + "::slice")
+    pfs = [pf] + [prog.fns[p] for p in prog.closures_of(pf.path)]
+    reads = [(g, c) for g in pfs for c in g.calls() if c.name.endswith("debugger::read_memory_by_pid")]
+    if ck.ob("table.slice_arith", "PointerValue::slice/one-read", len(reads) == 1, f"{len(reads)} reads", pf.loc()):
+        g, c = reads[0]
+        ck.saw(g)
+        base = _alg(g, expr_of(g, c.args[1], depth=40))
+        ln = _alg(g, expr_of(g, c.args[2], depth=40))
+        L, R, SZ = "up:left", "up:right", "up:deref_size"
+        want_base = ("add", *sorted(("arg2", ("mul", *sorted((SZ, L), key=repr))), key=repr))
+        want_len = ("mul", *sorted((SZ, ("sub", R, L)), key=repr))
+        ck.ob("table.slice_arith", "PointerValue::slice/base=ptr+size*l", base == want_base, f"base = {base}", g.loc(c.bb), what="pointer slice does not start at ptr + size*l")
+        ck.ob("table.slice_arith", "PointerValue::slice/len=size*(r-l)", ln == want_len, f"len = {ln}", g.loc(c.bb), what="pointer slice does not read size*(r-l) bytes")
+        # capture names are positions 3,4 of the owner: left = arg3, right = arg4, deref_size = type_size_in_bytes(target_type)
+        cl = [rv for i, j, pl, rv, sp in pf.assigns() if rv["r"] == "agg" and rv["kind"] == "closure"]
+        ok = False
+        if len(cl) == 1:
+            ups = g.raw.get("upvars", [])
+            got = {}
+            for nm, o in zip(ups, cl[0]["ops"]):
+                got[nm.lstrip("*")] = _alg(pf, expr_of(pf, o, depth=20))
+            ok = got.get("left") == "arg3" and got.get("right") == "arg4" and isinstance(got.get("deref_size"), tuple) and got["deref_size"][:2] == ("call", "type_size_in_bytes")
+            d = {k: v for k, v in got.items() if k in ("left", "right", "deref_size")}
+        ck.ob("table.slice_arith", "PointerValue::slice/captures=(left,right,type size)", ok, f"{d if len(cl) == 1 else ''}", pf.loc())
+        # per-element address and chunking by the element size
+        chunk = [(h, k) for h in pfs for k in h.calls() if k.name.endswith("::chunks")]
+        ok = len(chunk) == 1 and _alg(chunk[0][0], expr_of(chunk[0][0], chunk[0][1].args[1], depth=20)) == SZ
+        ck.ob("table.slice_arith", "PointerValue::slice/chunks-of-element-size", ok, "", pf.loc())
+        addr_ok = False
+        for h in pfs:
+            for i, j, pl, rv, sp in h.assigns():
+                if rv["r"] == "agg" and rv["name"].endswith("ObjectBinaryRepr"):
+                    flds = dict(zip(rv.get("fields", []), rv["ops"]))
+                    if "address" in flds:
+                        t = _alg(h, expr_of(h, flds["address"], depth=30))
+                        leaves = _leaves(t)
+                        addr_ok = "up:base_addr" in leaves and "up:deref_size" in leaves and ("agg", "Some") == t[:2] and isinstance(t[2], tuple) and t[2][0] == "add" and any(isinstance(x, tuple) and x[0] == "mul" for x in t[2][1:])
+                        ck.saw(h)
+        ck.ob("table.slice_arith", "PointerValue::slice/element-i-at-base+i*size", addr_ok, "", pf.loc())
+    # --- Value::index, array arm
+    vi = ck.anchor(VAL + "::index")
+    vfs = [vi] + [prog.fns[p] for p in prog.closures_of(vi.path)]
+    picks = [(g, c) for g in vfs for c in g.calls() if re.search(r"Vec::<T, A>::(swap_remove|remove)$|::nth$|Index<.*>>::index$|::get$", c.name) and "ArrayItem" in " ".join(c.generics if hasattr(c, "generics") else [])]
+    if not picks:
+        picks = [(g, c) for g in vfs for c in g.calls() if re.search(r"Vec::<T, A>::(swap_remove|remove)$", c.name) and g is not vi]
+    if ck.ob("table.slice_arith", "Value::index/array-pick", len(picks) == 1, f"{len(picks)} element selections", vi.loc()):
+        g, c = picks[0]
+        ck.saw(g)
+        t = _alg(g, expr_of(g, c.args[1], depth=20))
+        lv = _leaves(t) if isinstance(t, tuple) else {t}
+        ok = (not isinstance(t, tuple) or t[0] == "field") and any(str(x).startswith("up:idx") for x in lv | ({t} if not isinstance(t, tuple) else set())) or ("Int" in repr(t) and "idx" in repr(t) and not any(op in repr(t) for op in ("'add'", "'sub'", "'mul'")))
+        ck.ob("table.slice_arith", "Value::index/position=literal", ok, f"position = {t}", g.loc(c.bb), what="array index does not select the position named by the literal")
+        # guarded by position < len
+        guard = False
+        for b, blk in enumerate(g.blocks):
+            tm = blk["term"]
+            if tm["t"] == "switch":
+                e = expr_of(g, tm["discr"], depth=12)
+                if e[0] == "bin" and e[1] in ("Lt", "Gt", "Le", "Ge") and "len" in expr_str(e, 8) and c.bb in g.reach_from([x for _, x in tm["arms"]] + [tm["otherwise"]]):
+                    a, bb_ = _alg(g, e[2]), _alg(g, e[3])
+                    guard = guard or (e[1] == "Lt" and a == t) or (e[1] == "Gt" and bb_ == t)
+        ck.ob("table.slice_arith", "Value::index/position<len", guard, "", g.loc(c.bb))
+
+
+def json_places(rv):
+    """all projection elements mentioned in an rvalue, as one string"""
+    import json as _j
+    return _j.dumps(rv)
+
+
 def run(ck):
+    rule_slice(ck)
     rule_dispatch(ck)
     rule_parser(ck)
